@@ -23,7 +23,9 @@
 //
 //	filt=<ids>;.../<check>  filt2=<ids>;...
 //
-// ids = n1,n2,w1,r1 (sorted by kind then id) or -.
+// ids = n1,n2,w1,r1 (sorted by kind then id) or -.  dig=<h> and the suffix ~<h> of every `par` id set is a digest of
+// everything else an observer sees of the result (stored objects, Geom, CountTags; obs.go): it must not depend on
+// the schedule either.  Lines starting with `p` are described in obs.go.
 //
 // `seq` is one extraction with GOMAXPROCS=1 (one worker: sequential, deterministic, so the number
 // of passes over the file and the number of keep calls are compared exactly with the model).
@@ -510,6 +512,9 @@ func implLine(line string) (res string, fatal bool) {
 	if len(f) > 0 && f[0] == "c" {
 		return cancelLine(f)
 	}
+	if len(f) > 0 && f[0] == "p" {
+		return pbfLine(f)
+	}
 	if len(f) < 5 || f[0] != "x" || f[4] != "|" {
 		return "badline", false
 	}
@@ -535,7 +540,7 @@ func implLine(line string) (res string, fatal bool) {
 		return "error seq " + strings.ReplaceAll(sq.err.Error(), " ", "_"), false
 	}
 	var b strings.Builder
-	fmt.Fprintf(&b, "seq=%d/%d/%s/%s", sq.passes, sq.calls, idsOf(sq.d), checkStr(sq.d))
+	fmt.Fprintf(&b, "seq=%d/%d/%s/%s dig=%s", sq.passes, sq.calls, idsOf(sq.d), checkStr(sq.d), obsDigest(sq.d))
 
 	// 2. steered parallel runs
 	rng := vproto.NewRng(seed)
@@ -577,7 +582,7 @@ func implLine(line string) (res string, fatal bool) {
 		if r.err != nil {
 			return "error par " + strings.ReplaceAll(r.err.Error(), " ", "_"), false
 		}
-		distinct[idsOf(r.d)]++
+		distinct[idsOf(r.d)+"~"+obsDigest(r.d)]++
 		if r.d.Check() != nil {
 			checkFails++
 		}
